@@ -100,6 +100,8 @@ type Machine struct {
 	known    map[*Term]bool
 	bounds   map[*Term]rng
 	sbounds  map[*Term]srng
+	fbounds  map[string]frng
+	fvarSort map[string]bool
 	rmemo    map[*Term]rng
 	frozen   map[*value]bool
 	frozenM  map[*Map]bool
@@ -152,6 +154,8 @@ type Stats struct {
 	AssertsFail int
 	CegarIters  int
 	KnownHits   int
+	FPWitness   int
+	CrossChecked int
 	CacheHits   int
 	Reasons     map[string]int
 }
@@ -380,6 +384,15 @@ func (m *Machine) loadIdx(t types.Type, p *idxPtr) value {
 
 // ---------- path control ----------
 
+func (m *Machine) hasFloatVar(t *Term) bool {
+	for _, v := range t.vars {
+		if m.fvarSort[v] {
+			return true
+		}
+	}
+	return false
+}
+
 func (m *Machine) evalT(t *Term) uint64 {
 	if t.Op == OpConst {
 		return t.C
@@ -420,6 +433,7 @@ func (m *Machine) learn(t *Term, val bool) {
 	}
 	m.known[t] = val
 	m.learnBounds(t, val)
+	m.learnFP(t, val)
 	switch {
 	case t.Op == OpNot:
 		m.learn(t.Args[0], !val)
@@ -515,6 +529,9 @@ func sliceHasUF(slice []*Term) bool {
 }
 
 func (m *Machine) solveOneShot(extra *Term, slice []*Term, svars []string) (Result, Model) {
+	if os.Getenv("GOSX_FPLOG") != "" {
+		fmt.Fprintf(os.Stderr, "FPQUERY %s | bounds %v | site %s\n", m.st.Dump(extra, m.model, m.memo, 8), m.fbounds, m.site())
+	}
 	terms := append(append([]*Term(nil), slice...), extra)
 	var vars []*Term
 	for _, v := range m.st.Vars {
@@ -569,6 +586,7 @@ type cacheKey struct{ a, b uint64 }
 
 var queryCache sync.Map
 var noCache = os.Getenv("GOSX_NOCACHE") != ""
+var crossCheck = os.Getenv("GOSX_FPCHECK") != ""
 
 // ResetQueryCache empties the cross-path query cache (between harnesses).
 func ResetQueryCache() { queryCache = sync.Map{} }
@@ -798,6 +816,17 @@ func (m *Machine) branch(cond *Term) bool {
 	}
 	if v, ok := m.implied(cond, 0); ok {
 		m.Stats.KnownHits++
+		if crossCheck && m.hasFloatVar(cond) {
+			// validation mode: the pre-filter's verdict must be confirmed by the solver
+			other := cond
+			if v {
+				other = m.st.Not(cond)
+			}
+			if res, _ := m.solve(other); res == Sat {
+				panic(fmt.Sprintf("FP pre-filter disagrees with the solver on %s", m.st.Dump(cond, m.model, m.memo, 0)))
+			}
+			m.Stats.CrossChecked++
+		}
 		return v
 	}
 	cond = m.rewriteCmp(cond)
@@ -817,7 +846,14 @@ func (m *Machine) branch(cond *Term) bool {
 		if dir {
 			other = m.st.Not(cond)
 		}
-		res, md := m.solve(other)
+		var res Result
+		var md Model
+		if wm := m.fpWitness(other); wm != nil {
+			res, md = Sat, wm
+			m.Stats.FPWitness++
+		} else {
+			res, md = m.solve(other)
+		}
 		if m.SiteStats != nil {
 			m.SiteStats[m.site()+" "+res.String()]++
 		}
@@ -851,6 +887,10 @@ func (m *Machine) assume(cond *Term) {
 	if cond.IsFalse() {
 		m.abort("infeasible", "assume(false)")
 	}
+	if v, ok := m.implied(cond, 0); ok && v && m.evalT(cond) != 0 {
+		m.addPC(cond) // still part of the path condition the solver sees
+		return
+	}
 	if m.evalT(cond) == 0 {
 		res, md := m.solve(cond)
 		switch res {
@@ -868,6 +908,18 @@ func (m *Machine) assume(cond *Term) {
 func (m *Machine) concretize(t *Term) uint64 {
 	if t.Op == OpConst {
 		return t.C
+	}
+	if t.Sort.K == KBV {
+		if r := m.rangeOf(t); r.single() {
+			m.Stats.KnownHits++
+			if crossCheck && m.hasFloatVar(t) {
+				if res, _ := m.solve(m.st.Not(m.st.Eq(t, m.st.Const(t.Sort, r.lo)))); res == Sat {
+					panic(fmt.Sprintf("interval pre-filter disagrees with the solver on the value of %s", m.st.Dump(t, m.model, m.memo, 0)))
+				}
+				m.Stats.CrossChecked++
+			}
+			return r.lo // the value is implied by the path condition
+		}
 	}
 	for n := 0; ; n++ {
 		if n > 4096 {
@@ -943,7 +995,18 @@ func (m *Machine) assert(label string, cond *Term) {
 		m.recordViolation(label, "assertion fails", m.model)
 		m.abort("violation", label)
 	}
-	res, md := m.solve(m.st.Not(cond))
+	if v, ok := m.implied(cond, 0); ok && v {
+		m.Stats.Asserts++
+		m.Stats.KnownHits++
+		return
+	}
+	var res Result
+	var md Model
+	if wm := m.fpWitness(m.st.Not(cond)); wm != nil {
+		res, md = Sat, wm
+	} else {
+		res, md = m.solve(m.st.Not(cond))
+	}
 	switch res {
 	case Sat:
 		m.recordViolation(label, "assertion fails", md)
@@ -978,6 +1041,8 @@ func (m *Machine) RunPath(entry *ssa.Function, it Item) (kind, reason string) {
 	m.known = map[*Term]bool{}
 	m.bounds = map[*Term]rng{}
 	m.sbounds = map[*Term]srng{}
+	m.fbounds = map[string]frng{}
+	m.fvarSort = map[string]bool{}
 	m.rmemo = map[*Term]rng{}
 	m.frozen = nil
 	m.frozenM = nil
